@@ -582,6 +582,9 @@ func (c *Cache[K, V]) processItems() {
 			switch i.flag {
 			case itemNew:
 				victims, added := c.cachePolicy.Add(i.Key, i.Cost)
+				if added {
+					verifObserve(vpAppAdded, 1, uint64(len(victims)))
+				}
 				verifPoint(vpAppAdded)
 				if added {
 					c.storedItems.Set(i)
